@@ -1792,23 +1792,32 @@ def set_inputs(top, d, mod, rng):
       port @= eval(tconst_src(sg['type'], v) if sg['type'][0] == 's' else f'Bits{sg["type"][1]}({v})', mod.__dict__)
   return vals
 
-def simulate_and_check(top, d, mod, rng, nets, nvec=3):
-  """nets: list of (writer obj, [member objs]). Returns list of failures (empty = ok)."""
-  from pymtl3.passes.PassGroups import DefaultPassGroup
-  top.apply(DefaultPassGroup())
-  top.sim_reset()
+def simulate_and_check(top, d, mod, rng, nets, nvec=3, drive='reset', flow='default'):
+  """nets: list of (writer obj, [member objs]). Returns list of failures (empty = ok).
+  drive: what the fresh simulator is asked first -- 'eval' (sim_eval_combinational), 'reset' (sim_reset), 'tick' (sim_tick);
+  flow: 'default' (DefaultPassGroup) | 'unroll' (mamba UnrollSim) | 'mamba' (Mamba2020)"""
+  if flow == 'default':
+    from pymtl3.passes.PassGroups import DefaultPassGroup
+    top.apply(DefaultPassGroup())
+  else:
+    from pymtl3.passes.mamba.PassGroups import Mamba2020, UnrollSim
+    top.apply((UnrollSim if flow == 'unroll' else Mamba2020)(print_line_trace=False))
   fails = []
+  def check(k, phase, ins):
+    for (w, members) in nets:
+      wv = value_of(top, d, w, mod)
+      for m in members:
+        mv = value_of(top, d, m, mod)
+        if mv != wv:
+          fails.append(dict(vector=k, phase=phase, drive=drive, flow=flow, inputs=ins, writer=d.orepr(w), writer_value=wv, member=d.orepr(m), member_value=mv))
+  if drive == 'reset': top.sim_reset()
+  elif drive == 'tick': top.sim_tick()
   for k in range(nvec):
     ins = set_inputs(top, d, mod, rng)
     top.sim_eval_combinational()
-    for phase in ('comb', 'tick'):
-      for (w, members) in nets:
-        wv = value_of(top, d, w, mod)
-        for m in members:
-          mv = value_of(top, d, m, mod)
-          if mv != wv:
-            fails.append(dict(vector=k, phase=phase, inputs=ins, writer=d.orepr(w), writer_value=wv, member=d.orepr(m), member_value=mv))
-      if phase == 'comb': top.sim_tick()
+    check(k, 'comb', ins)
+    top.sim_tick()
+    check(k, 'tick', ins)
   return fails
 
 def witness_self_overlap():
